@@ -54,7 +54,9 @@ RULE = ("op histories over a pool of 4 tendrils, 5 formats × {NonAtomic, Atomic
         "0,1,7,8,9,15,16,17,31,32,33 with boundary arguments, followed by a mutation of every slot; UTF-8 / WTF-8 "
         "contents put every cut position in every phase of 1–4-byte characters; validation at every edge of the "
         "well-formed UTF-8 byte ranges, stray continuation bytes, all lead × trail surrogate joins in every "
-        "representation (thorough: every pair of leading bytes × 6 tails); then seeded random histories. "
+        "representation (thorough: every pair of leading bytes × 6 tails); exhaustive push_tendril grid over one shared "
+        "64-byte buffer (receiver and argument views with offsets 0,1,5,8,9,16,20,31 × lengths 0,1,8,9,10,16, produced "
+        "by subtendril and by pop_front/pop_back, both orders); then seeded random histories. "
         "non-trivial = some op changed a tendril or returned a character / error; distinct = distinct (case, output)")
 EXPLANATION = ("theorems: every op of the model refines the byte-list spec on its own slot and leaves abs of every "
                "other slot unchanged, for all heaps/pools satisfying WF, WF is preserved, lifted to all histories")
@@ -557,6 +559,34 @@ def validate_cases(fmt, atom, tier):
     return cases
 
 
+GRID_OFFS = [0, 1, 5, 8, 9, 16, 20, 31]
+GRID_LENS = [0, 1, 8, 9, 10, 16]
+
+
+def pusht_grid_cases(fmt, atom):
+    """exhaustive push_tendril grid over one shared 64-byte buffer: receiver = view (o1, l1), argument = view
+    (o2, l2) for all offsets / lengths of the grid (adjacent, overlapping, gapped, reversed, argument at
+    2*o1 + l1, …), the views produced by subtendril and by pop_front / pop_back; afterwards every slot is mutated
+    and observed.  The 64 bytes are distinct ASCII, so every cut is valid in every format."""
+    whole = bytes(0x30 + i for i in range(64))
+    base = "from 0 " + hx(whole)
+    tail = ["push 1 7e", "push 2 7d", "push 0 7c"]
+    cases = []
+    for o1 in GRID_OFFS:
+        for l1 in GRID_LENS:
+            for o2 in GRID_OFFS:
+                for l2 in GRID_LENS:
+                    if o1 + l1 > 64 or o2 + l2 > 64:
+                        continue
+                    cases.append((mk(fmt, atom, [base, "tsub 0 1 %d %d" % (o1, l1), "tsub 0 2 %d %d" % (o2, l2),
+                                                 "pusht 1 2"] + tail), "cover-pusht-grid"))
+                    cases.append((mk(fmt, atom, [base, "clone 0 1", "clone 0 2",
+                                                 "popf 1 %d" % o1, "popb 1 %d" % (64 - o1 - l1),
+                                                 "popb 2 %d" % (64 - o2 - l2), "popf 2 %d" % o2,
+                                                 "pusht 1 2", "pusht 2 1"] + tail), "cover-pusht-grid"))
+    return cases
+
+
 def cover_cases(fmt, atom, lens=LENS, phases=(0,)):
     cases = []
     for L in lens:
@@ -637,6 +667,8 @@ def gen_cases(tier, rng):
             else:
                 cases += cover_cases(fmt, atom, phases=phases)
             cases += adjacency_cases(fmt, atom)
+            if tier == "thorough" or atom == "N" or fmt == "bytes":
+                cases += pusht_grid_cases(fmt, atom)
             if fmt in ("utf8", "wtf8", "ascii"):
                 cases += validate_cases(fmt, atom, tier)
     n = 4000 if tier == "quick" else 400000
@@ -699,4 +731,5 @@ def neighbourhood(line):
 def extra_evidence(check):
     return {"formats": FORMATS, "boundary_lengths": LENS,
             "families": "cover-<representation> × probes, cover-adjacent (push_tendril fast path), "
-                        "cover-validate (edges of the well-formed UTF-8 ranges, surrogate joins), random"}
+                        "cover-validate (edges of the well-formed UTF-8 ranges, surrogate joins), cover-pusht-grid (all receiver × "
+                        "argument views (offset, length) of one shared 64-byte buffer, via subtendril and via pops), random"}
